@@ -820,12 +820,17 @@ pub fn evaluate(h: &History, ws: &HistWorkerState) -> HistEval {
             }
         }
         if failed {
-            any_failed = true;
             ev.failed_ops += 1;
+        }
+        // an operation that returned Ok may still have met (and handled) a failure inside
+        let internal_failure = pred.as_ref().is_some_and(|p| p.error_occurred)
+            || matches!(op, Op::Import(ImportKind::CaughtFailTop));
+        if failed || internal_failure {
+            any_failed = true;
         }
         kinds.push((op.kind(), failed));
         if let Some((class, detail)) = v {
-            if !any_failed && !failed {
+            if !any_failed {
                 // nothing has failed yet: outside the property's domain => modelling problem
                 ev.harness_error = Some(format!(
                     "mismatch before any failure at operation {i} ({}): {class}: {detail}",
